@@ -535,12 +535,18 @@ class ProgGen:
         out = [f'{ind}select case (modulo({e}, 7))']
         opts = [['(0)'], ['(1, 2)'], ['(3:4)'], ['(5:)']]
         rng.shuffle(opts)
+        blocks = []
         for o in opts[:rng.randint(1, 4)]:
-            out.append(f'{ind}case {o[0]}')
-            out += self.block(ind + '  ', depth - 1, rng.randint(1, 2), loop_label)
+            blocks.append([f'{ind}case {o[0]}'] + self.block(ind + '  ', depth - 1, rng.randint(1, 2), loop_label))
         if rng.random() < 0.6:
-            out.append(f'{ind}case default')
-            out += self.block(ind + '  ', depth - 1, 1, loop_label)
+            dflt = [f'{ind}case default'] + self.block(ind + '  ', depth - 1, 1, loop_label)
+            # CASE DEFAULT may appear anywhere among the case blocks
+            pos = len(blocks) if rng.random() < 0.5 else rng.randint(0, len(blocks))
+            if pos < len(blocks):
+                self.features.add('case_default_not_last')
+            blocks.insert(pos, dflt)
+        for b in blocks:
+            out += b
         out.append(f'{ind}end select')
         return out
 
